@@ -177,6 +177,7 @@ func init() {
 				"R2.authgate":  "Authenticate's nil return is gated on validation, namespace, hard-key and challenge facts",
 				"R3.challenge": "challenge construction: fresh random buffer, same data and key signed and verified, key file path provenance",
 				"R4.noeffects": "no agent mutation reachable from Authenticate; Signer.Sign call sites",
+				"R5.request":   "the hardware-key attribute the gate tests is decoded from the legacy request text (C15's key/field table, restricted to that field)",
 			},
 		},
 		Run: runC01,
@@ -185,6 +186,16 @@ func init() {
 
 func runC01(c *Ctx) {
 	w := c.w
+	// the hardware-key refusal tests Attrs.HardKey: the legacy request text must be decoded into that field with the
+	// boolean parser the encoder's verb inverts (a reader that recognises fewer spellings lets a hardware-key request through)
+	if p, attrs := tbRepoPkg(c, "message"), (*types.Named)(nil); p != nil {
+		if attrs = tbNamed(p, "Attributes"); attrs != nil {
+			n := c.WithRulesKept(map[string]string{"R1.legacy": "R5.request"}, func(construct, detail string) bool {
+				return strings.Contains(detail, "HardKey") && !strings.HasPrefix(construct, "floor:")
+			}, func() { tbC15Legacy(c, p, attrs) })
+			c.Floor("R5.request", n, 1, "legacy key decoded into Attributes.HardKey")
+		}
+	}
 	m := resolveGensign(w)
 	for _, p := range m.problems {
 		c.Unresolved("R1.select", p)
